@@ -1,5 +1,6 @@
 import SqlgrepModel.Spec.JsonGrammar
 import SqlgrepModel.Lemmas.PrintGrammar
+import SqlgrepModel.Lemmas.PrintReal
 import SqlgrepModel.Lemmas.JsonParser
 import SqlgrepModel.Lemmas.Utf8Valid
 import SqlgrepModel.Props.C17
@@ -193,6 +194,50 @@ theorem json_real_cell (o : RealOracle) (b : Nat) (ho : RealTextsOk o (.real b))
     | real hn _ => rw [hf] at hn; cases hn
     | realNonFinite _ => rfl
 
+/-! ## finite REAL "without loss": the printed number reads back as the same REAL (L3) -/
+
+/-- **json_real_reads_back.** A finite REAL cell, printed in JSON format and parsed again by the RFC 8259 grammar with
+nearest rounding, gives the same REAL. Hypotheses, both decidable and both evaluated on every case by the `print` driver
+(a case violating one answers `hypothesis-violated`; `Drivers/FactCheck.lean` answers `fact-mismatch real-json-roundtrip` /
+`real-roundtrip`): the shipped text is an ASCII JSON number (`RealTextsOk`) and reads back (`RealReadsBack`:
+`JsonDoc.readReal (chars (o.json b)) = some b`). Conclusion: the printed cell is the UTF-8 of a `number` text `cs` denoting
+the decimal `d` (the `d` of `CellDoc` / `json_record_denotes_row`), and
+* `decToF64` of `d` with the sign of the text is `b` — so `-0.0`, printed `-0.0`, comes back as `-0.0` although its
+  denotation `⟨0, -1⟩` carries no sign (L1 on the output side);
+* for `b` other than `±0` that is `nearestReal d = b`: the REAL is recovered from the DENOTATION alone;
+* `f64::from_str` of the text (`DecFloat.parseF64`) is `b`;
+* sqlgrep's own JSON reader (`JsonDoc.serdeNumber`, the one `docOfLine` executes) reads a number whose REAL is `b`: feeding
+  the printed record back into a REAL JSON-path column returns the cell. -/
+theorem json_real_reads_back (o : RealOracle) (b : Nat) (hf : isFinite b = true)
+    (ho : RealTextsOk o (.real b)) (hr : RealReadsBack o (.real b)) :
+    ∃ (cs : List Char) (d : Dec),
+      encode cs = (jsonValue o (.real b)).render ∧ NumD cs d ∧ CellDoc o (.real b) (.num d)
+      ∧ JsonDoc.realOfDec (JsonDoc.lexNeg cs) d = b
+      ∧ (b % 2 ^ 63 ≠ 0 → JsonDoc.nearestReal d = b)
+      ∧ DecFloat.parseF64 cs = some b
+      ∧ ∃ n, JsonDoc.serdeNumber cs = some n ∧ (Sqlgrep.Json.num n).asF64 = some b := by
+  have hmem : b ∈ allReals (.real b) := by simp [allReals]
+  obtain ⟨ha, _⟩ := isJsonNumberBytes_sound (ho b hmem hf)
+  obtain ⟨d, hd, hD, h1, h2, h3, h4⟩ := readsBack_spec o b hf (hr b hmem hf)
+  refine ⟨chars (o.json b), d, ?_, hD, .real hf hd, h1, h2, h3, h4⟩
+  simp only [jsonValue, hf, if_true]
+  exact encode_chars ha
+
+/-- … for every REAL of a row (array elements at any depth included): with the two checked hypotheses on each cell, every
+finite REAL `b` of the row is printed as a `number` whose denotation, rounded to the nearest REAL with the sign of the
+text, is `b`. Together with `json_record_denotes_row` (whose `CellDoc` pins the member's value to that denotation):
+"finite REAL as numbers without loss". -/
+theorem json_record_reals_read_back (o : RealOracle) (row : List Value)
+    (hr : ∀ v ∈ row, RealReadsBack o v) :
+    ∀ v ∈ row, ∀ b ∈ allReals v, isFinite b = true →
+      ∃ d, numValue (chars (o.json b)) = some d ∧ NumD (chars (o.json b)) d
+        ∧ JsonDoc.realOfDec (JsonDoc.lexNeg (chars (o.json b))) d = b
+        ∧ (b % 2 ^ 63 ≠ 0 → JsonDoc.nearestReal d = b)
+        ∧ DecFloat.parseF64 (chars (o.json b)) = some b := by
+  intro v hv b hb hf
+  obtain ⟨d, hd, hD, h1, h2, h3, _⟩ := readsBack_spec o b hf (hr v hv b hb hf)
+  exact ⟨d, hd, hD, h1, h2, h3⟩
+
 /-! ## non-vacuity -/
 
 /-- `a"b\c⏎␁😀` — a quote, a backslash, a line feed, the control character U+0001, a non-BMP character -/
@@ -295,5 +340,27 @@ example : Reader.validUtf8 [255] = false := by decide
 
 -- whitespace is part of the grammar although the compact printer writes none: `{ "a" : [ 1 , 2 ] }`
 example : Ws [' ', '\t', '\n', '\r'] := by decide
+
+-- L3: texts as serde_json ships them read back as the REAL they were printed for (instances of `RealReadsBack`) ...
+/-- an oracle shipping serde_json's text for five REALs: 1.5, 0.1, -0.0, 1e300 (`1e300`), 5e-324 -/
+def o3 : RealOracle :=
+  { fixed2 := fun _ => []
+    json := fun b =>
+      if b = 0x3ff8000000000000 then [49, 46, 53]                               -- 1.5
+      else if b = 0x3fb999999999999a then [48, 46, 49]                          -- 0.1
+      else if b = 0x8000000000000000 then [45, 48, 46, 48]                      -- -0.0
+      else if b = 0x7e37e43c8800759c then [49, 101, 51, 48, 48]                 -- 1e300
+      else [53, 101, 45, 51, 50, 52] }                                          -- 5e-324
+def row3 : List Value :=
+  [.real 0x3ff8000000000000, .array .real [.real 0x3fb999999999999a, .real 0x8000000000000000], .real 0x7e37e43c8800759c, .real 1]
+
+example : ∀ v ∈ row3, RealTextsOk o3 v := by decide +kernel
+example : ∀ v ∈ row3, RealReadsBack o3 v := by decide +kernel
+-- `-0.0` is printed `-0.0`, denotes ⟨0, -1⟩ (no sign), and reads back with its sign
+example : numValue (chars (o3.json 0x8000000000000000)) = some ⟨0, -1⟩
+    ∧ JsonDoc.readReal (chars (o3.json 0x8000000000000000)) = some 0x8000000000000000 := by decide +kernel
+-- ... and a text one unit in the last place off (`0.10000000000000002` for 0.1) does not: the check can fail
+example : JsonDoc.readReal "0.10000000000000002".toList = some 0x3fb999999999999b := by decide +kernel
+example : ¬ RealReadsBack { fixed2 := fun _ => [], json := fun _ => [49, 46, 53] } (.real 0x3fb999999999999a) := by decide +kernel
 
 end Sqlgrep.Props.C17Json
